@@ -206,6 +206,8 @@ def check(ctx):
         with ctx.guard(c):
             judge(ctx, c, r, m)
     interpreter_exit_cases(ctx)
+    from harness.props import multistream
+    multistream.run(ctx, ctx.scale(40, 300), {'process'}, 'multi-C04', parallel=True, failures=True)
 
 
 def replay(ctx, data):
